@@ -636,6 +636,10 @@ def _refuses_bitxor(prog: Program, fn: Func, test: ast.AST) -> bool:
     return _reads_bitxor(prog, fn, test)
 
 
+def short_text(t: str, n: int = 60) -> str:
+    return t if len(t) <= n else t[:n - 3] + "..."
+
+
 def _reads_bitxor(prog: Program, fn: Func, test: ast.AST) -> bool:
     for x in ast.walk(test):
         if isinstance(x, ast.Attribute) and x.attr == "BitXor":
@@ -658,6 +662,7 @@ def _r17_21(prog: Program, res: Result) -> None:
     over the candidates and above that call (the test reads the loop variable; a conjunction with something else refuses only a part)."""
     from ..callgraph import CallGraph
     from ..defuse import bindings
+    from ..pathcond import PathAnalysis, plain
     sinks: Dict[Tuple[str, str], ast.AST] = {}
     for fn in prog.funcs.values():
         for c in prog.calls_in(fn):
@@ -692,16 +697,24 @@ def _r17_21(prog: Program, res: Result) -> None:
         n += 1
         first = min(reaching, key=lambda c: (c.lineno, c.col_offset))
         loops = [lp for lp in walk_own(fn.node) if isinstance(lp, ast.For) and any(x is first for x in ast.walk(lp))]
-        guard = None
-        for lp in loops:
-            for st in lp.body:
-                if st.lineno >= first.lineno:
-                    break
-                if isinstance(st, ast.If) and not st.orelse and st.body and isinstance(st.body[-1], (ast.Continue, ast.Return)) and _refuses_bitxor(prog, fn, st.test) \
-                        and {x.id for x in ast.walk(lp.target) if isinstance(x, ast.Name)} & {x.id for x in ast.walk(st.test) if isinstance(x, ast.Name)}:
-                    guard = st
+        loop_names = {x.id for lp in loops for x in ast.walk(lp.target) if isinstance(x, ast.Name)}
+        pa = PathAnalysis(prog, fn)
+
+        def refused(w) -> Optional[str]:
+            # a fact that is known to be FALSE where the call stands: the candidate was searched for a `^` and none was found
+            for fct in w.facts:
+                if fct[0] == "lit" and not fct[2]:
+                    try:
+                        t = ast.parse(plain(fct[1]), mode="eval").body
+                    except SyntaxError:
+                        continue
+                    if _reads_bitxor(prog, fn, t) and loop_names & {x.id for x in ast.walk(t) if isinstance(x, ast.Name)}:
+                        return plain(fct[1])
+            return None
+        verdicts = [refused(w) for w in pa.worlds_at(first)]
+        guard = verdicts[0] if verdicts and all(verdicts) else None
         res.decide(guard is not None, "R17.21", fn.loc(first), fn.fq, f"{short(first, 60)} # code handed to sympy as text",
-                   f"code with a `^` is refused at line {guard.lineno}, above the first call that reaches a text reader of sympy" if guard is not None else
+                   f"reached only where `{short_text(guard)}` is false: code with a `^` is refused above the first call that reaches a text reader of sympy" if guard is not None else
                    f"{len(reaching)} call(s) of this rule reach a text reader of sympy ({', '.join(sorted(q for _m, q in sinks))}) and nothing above them refuses code that contains "
                    "ast.BitXor: sympy reads `7 ^ 3` as 7**3 (`sum([7 ^ 3, 4])` became 347, is 8)")
     if n == 0:
